@@ -117,22 +117,34 @@ def dft_sampling(ctx):
             f'not hold (product = {lhs}): frequencies are not reported in '
             f'cycles/mm up to the cut-off',
             construct='MTF frequency step vs PSF pixel size'))
-    # pixel size law dx = lambda * F# / Q, Q = grid/num_rays
-    want = A('LAM') * A(fno[0] if fno else 'FNO') / (A('G') / A('NR'))
+    # pixel size law: the pupil of diameter D is sampled by
+    # linspace(-1, 1, num_rays), i.e. num_rays - 1 intervals of D/(num_rays-1);
+    # after zero padding to G samples the DFT frequency step is
+    # (num_rays-1)/(G D) and the image pixel lambda f (num_rays-1)/(G D)
+    #   dx = lambda * F# * (num_rays - 1) / grid_size
+    want = A('LAM') * A(fno[0] if fno else 'FNO') * (A('NR') - ONE) / A('G')
     if rat_eq(dx_psf, want):
-        res.ok('PSF pixel size == lambda * F# * num_rays / grid_size')
+        res.ok('PSF pixel size == lambda * F# * (num_rays - 1) / grid_size')
     else:
-        res.fail(ctx.finding('DFT-SAMPLING', fp, fp.node,
-                             f'PSF pixel size is {dx_psf}, not lambda F#/Q',
-                             construct='PSF pixel size'))
+        wrong = A('LAM') * A(fno[0] if fno else 'FNO') * A('NR') / A('G')
+        res.fail(ctx.finding(
+            'DFT-SAMPLING', fp, fp.node,
+            f'PSF pixel size is {dx_psf}: the pupil grid linspace(-1, 1, n) '
+            f'has n - 1 intervals, so the pixel is lambda F# (n - 1)/grid; '
+            + ('with n in place of n - 1 every PSF coordinate and every MTF '
+               'frequency is off by the factor n/(n - 1) (0.8 % at n = 128, '
+               '6.7 % at n = 16)' if rat_eq(dx_psf, wrong) else
+               'the expression is not of that form'),
+            construct='PSF pixel size'))
     # cut-offs
     for q in ('FFTMTF.__init__', 'GeometricMTF.__init__'):
         f = P.func(q)
         res.saw(f)
         n = 0
         for s in ast.walk(f.node):
-            if isinstance(s, ast.Assign) and unparse(s.targets[0]) == \
-                    'self.max_freq' and isinstance(s.value, ast.BinOp):
+            if isinstance(s, ast.Assign) and unparse(s.targets[0]) in (
+                    'self.max_freq', 'self.cutoff') and \
+                    isinstance(s.value, ast.BinOp):
                 n += 1
                 ev = Ev(inline=_paraxial_inline)
                 ev.heap.update({'self.wavelength': A('LAM'),
@@ -629,9 +641,36 @@ def geometric(ctx):
             except Inconclusive:
                 ok = False
     s = Code(P, g)
-    if ok and 'phi = np.arccos(self.freq / self.max_freq)' in s:
+    # phi = arccos(f / f_c) with f_c the diffraction cut-off: the attribute in
+    # the denominator must only ever hold the cut-off (an attribute that can
+    # also hold a frequency range chosen by the caller is not the cut-off)
+    gi = P.func('GeometricMTF.__init__')
+    den = None
+    for n in ast.walk(g.node):
+        if isinstance(n, ast.Call) and unparse(n.func) == 'np.arccos' and n.args:
+            a_ = n.args[0]
+            if isinstance(a_, ast.Call) and unparse(a_.func) == 'np.clip' \
+                    and a_.args:
+                a_ = a_.args[0]
+            if isinstance(a_, ast.BinOp) and isinstance(a_.op, ast.Div) and \
+                    unparse(a_.left) == 'self.freq':
+                den = unparse(a_.right)
+    stores = [st for st in ast.walk(gi.node) if isinstance(st, ast.Assign)
+              and den is not None and unparse(st.targets[0]) == den]
+    only_cutoff = den is not None and len(stores) == 1 and \
+        isinstance(stores[0].value, ast.BinOp) and \
+        'FNO' in unparse(stores[0].value)
+    if ok and only_cutoff:
         res.ok('diffraction scaling (2/pi)(phi - cos phi sin phi), phi = '
                'arccos(f / cut-off)')
+    elif ok and den is not None:
+        res.fail(ctx.finding(
+            'GEOMETRIC', g, g.node,
+            f'the diffraction-limit scaling takes phi = arccos(f / {den}), '
+            f'and {den} is also assigned a frequency range chosen by the '
+            f'caller: with max_freq = 100 the diffraction limit at 100 '
+            f'cycles/mm is reported as 0 whatever the true cut-off',
+            construct='geometric scaling'))
     else:
         res.fail(ctx.finding('GEOMETRIC', g, g.node,
                              'diffraction-limit scaling is not (2/pi)(phi - '
